@@ -790,6 +790,16 @@ class ProgGen:
 		decl(f'{ov}.{meth}(1) if {ov} is not None else 0')
 		decl(f'[{ov}, {ov}]')
 		decl(f'({o1}, a, s)')
+		if rng.random() < 0.6:
+			# list literals whose earlier items carry less type information than a later one of the same container class (on_list keeps the
+			# LAST element type per class): empty containers first, then containers of objects / scalars
+			e0, e1 = rng.choice([('[]', f'[{o1}]'), ('{}', f'{{"k": {o2}}}'), ('[[]]', f'[[{o1}, {o2}]]'), ('[]', '[a, 1]'), ('{}', '{s: b}'), ('[]', f'[({o1}, a)]')])
+			w = decl('[' + ', '.join([e0] * rng.randint(1, 2) + [e1]) + ']')
+			decl(f'{w}[{rng.randint(0, 1)}]')
+			decl(f'[z for z in {w}]')
+			if e1 == f'[{o1}]':
+				decl(f'{w}[-1][0].{self.base_attr}')
+			self.count('list-literal:empty-first')
 		if enum_name:
 			e1 = decl(f'{enum_name}.{members[0]}')
 			e2 = decl(f'{enum_name}.{members[1]} if p else {e1}')
